@@ -50,4 +50,16 @@ func addEnvIntrinsics(m map[string]intrinsic) {
 	m["github.com/golang/snappy.Encode"] = func(p *Path, fn *ssa.Function, a []Value, pos token.Pos, caller *ssa.Function) []Value {
 		return []Value{p.freshBytes("snappy_encoded", 1, 1<<32)}
 	}
+	// uuid.New: 16 arbitrary bytes (the version/variant bits are not modelled; uniqueness is NOT assumed)
+	m["github.com/google/uuid.New"] = func(p *Path, fn *ssa.Function, a []Value, pos token.Pos, caller *ssa.Function) []Value {
+		if p.tolerant > 0 {
+			panic(tolerantFail{"uuid in package initialiser"})
+		}
+		p.envNondet = true
+		e := make([]Value, 16)
+		for i := range e {
+			e[i] = IntV{T: p.fresh("env_uuid", BVSort(8))}
+		}
+		return []Value{ArrV{e}}
+	}
 }
